@@ -12,6 +12,10 @@ CHECKS = {
          "Every union with 1..4 (quick) / 1..5 (thorough) cases x every payload mask x every non-empty ordered selection of distinct arms x pattern form per payload arm x with/without default (x 7 hosting positions for n<=3) is given to the fc built from the working tree; accept/reject, absence of output on reject and the named uncovered case must equal a reference set computation. Accepted programs with n<=3 are also compiled and executed on every constructor value (never-reached panic must not fire, the constructor's arm must run).",
          "Default-only matches, misplaced default arms, duplicate arms and foreign case names are outside the space. Diagnostic wording is not matched, only the presence of an uncovered case's name.",
          "DESIGN.md C09"),
+ "C15": ("bounded-exhaustive enumeration of type expressions (choice-tree explorer over constructors, fuel splits, one redundant parenthesis, leaf rotation) in 5 syntactic positions vs. a reference type printer",
+         "Every type expression with <=2 constructors (quick: plus k=3 with minimal parentheses; thorough: k<=3 with every single redundant pair of parentheses and k=4 minimal) over slices, 2/3-tuples, arrows (incl. unit argument/result, right-nesting through parentheses), external generics ext.Box<T>/ext.Pair<K,V>, user generic G<T>, written in each of the 5 positions, is transpiled by the fc built from the working tree; the Go type text found at the corresponding place of gen_*.go (go/parser, normalised with go/types.ExprString) must equal the reference printer's text.",
+         "Leaves rotate over the base types instead of the full product; () only as sole parameter or result; emitted files are parsed, not compiled.",
+         "DESIGN.md C15"),
 }
 NOT_APPLICABLE = []
 
